@@ -385,12 +385,13 @@ class C17(Property):
       return ["play", {"kind": kind, "len": ln, "chunk_size": cs,
                        "channels": ch, "dfmt": dfmt, "use_global": False}]
 
-    def wl(script, wait=False, ctx="close", knobs=None, after=None):
+    def wl(script, wait=False, ctx="close", knobs=None, after=None,
+           parked_ok=False):
       k = default_knobs()
       k.update({"strategy": "random", "gap_max": 6, "line_budget": 30})
       k.update(knobs or {})
       return {"wait": wait, "script": script, "ctx": ctx, "api": None,
-              "gchunk": None, "knobs": k,
+              "gchunk": None, "knobs": k, "parked_ok": parked_ok,
               "after": after or {"close2": True, "play_after": True}}
     scripts = [
       # a paused player at shutdown (the section-5 deadlock)
@@ -398,6 +399,10 @@ class C17(Property):
       dict(script=[play("list", 6), ["pause", 0], ["idle", 10]]),
       dict(script=[play("list", 6, 2), ["pause", 0], ["idle", 3],
                    ["stop", 0]], wait=True),
+      # a player left paused when close(wait=True) starts (the known
+      # finding C17-close-wait-true-paused-player)
+      dict(script=[play("list", 40), ["pause", 0], ["idle", 30]], wait=True,
+           parked_ok=True),
       # the racy variant: pause, resume, stop, close without idle
       dict(script=[play("list", 8), ["pause", 0], ["resume", 0],
                    ["stop", 0]]),
@@ -829,10 +834,18 @@ class C17(Property):
              idx[0] in ctl["stopped"]:
             legit = False
         if legit:
-          violation = None
-          specified_wait = True
-          res.counters["probe.close-waits-for-a-parked-player-as-specified"] \
-            += 1
+          # "closing the manager always returns" - it does not: nobody is
+          # left to resume the player.  A genuine defect of the library
+          # with no small safe repair (resume? stop? - the maintainers'
+          # call): the known finding C17-close-wait-true-paused-player of
+          # known_findings.json, identified by exactly this shape
+          violation = Violation(
+            "close-hang:deadlock",
+            "wait-true:script-paused-player:" + violation.signature,
+            "close(wait=True) never returns: it joins a player that the "
+            "script paused and neither resumed nor stopped; the player is "
+            "parked in go.wait() and nothing will ever set the event")
+          res.counters["probe.close-waits-for-a-parked-player"] += 1
     except HarnessError:
       raise
     except Exception as exc:
